@@ -1176,8 +1176,10 @@ def c06_streams(ctx):
         gs.append(Group(cs, {"features": features(ast), "input": s, "ast": ast}))
     # quantifiers over nullable / zero-width / first-attempt-failing bodies, empty back-references
     for p in ["(?:a?)*b", "(?:a*)*", "(?:a*)+b", "(?:^)*a", "(?:$|a)+b", "(?:a|ab)+?c", "(?:a|bb)+?c", "(?:^^)*?1", "(?:)*a", "(a?)\\1*b", "(?:a*?)*?b",
-              "(?:(?:a?)+)+b", "(?:a|)+", "(?:a{0,2}){0,3}b", "(b*)\\1+a", "(?:\\n|^)*x"]:
-        for s in ["", "a", "aaaa", "ab", "cc", "c1", "abc", "aaab"]:
+              "(?:(?:a?)+)+b", "(?:a|)+", "(?:a{0,2}){0,3}b", "(b*)\\1+a", "(?:\\n|^)*x",
+              "(?:^|a)*?c", "x(?:a|$)+?c", "(a*)\\1*?c", "(?:^^)+?1", "(^)+?a", "a(?:$$){2,}?b", "(?:^|a)+?c", "(?:a|^){2,}?b", "(?:$)+?x", "(?:^|$)*?a",
+              "(?:\\1|a)*?(b)c" if False else "(b)(?:\\1|a)*?c", "(?:^){2}?a", "(?:(?:^)+?a)+?b"]:
+        for s in ["", "a", "aaaa", "ab", "cc", "c1", "abc", "aaab", "bc", "xa", "ba", "a\nc", "bcb"]:
             cs = [Case(p, "", "is_match", s), Case(p, "", "tokenize", s, limit=40), Case(p, "", "analyze", s, limit=40), Case(p, "", "replace", s, "-")]
             gs.append(Group(cs, {"features": {"rep_nullable_body"}, "input": s}))
     return gs
